@@ -27,7 +27,7 @@ def conc(words, seps, cont, inner=False, v=0):
     """v shifts the representative chosen for every word (the rotation alone ties the spelling to the position)"""
     first, cp = CONTS[cont]
     if inner:
-        return conc(words, seps, cont, v=v).replace("`c d`", "`c  d`").replace("[l m]", "[l   m]").replace("`e f`", "`e  f`").replace("[x y]", "[x  y]").replace("`g h`", "`g   h`")
+        return conc(words, seps, cont, v=v).replace("`c d`", "`c  d`").replace("[l m]", "[l   m]").replace("`e f`", "`e \t f`").replace("[x y]", "[x\ty]").replace("`g h`", "`g   h`")     # a tab is a space like any other
     out = [first, CONC[words[0]][0 if v == 0 else (v + 1) % 3]]        # never "|" / "epsilon" first: a paragraph must start with a plain token
     for g, s in enumerate(seps):
         sep = {"s1": " ", "s2": ("  ", "   ", " " * 12)[(g + v) % 3], "nl": "\n" + cp, "nli": "\n" + cp + "   ", "nll": "\n"}[s]
